@@ -260,6 +260,10 @@ static void nasm_register_size_optimize(struct instr *instrc) {
 static void encode_imm_data_transfer(struct instr *instrc) {
   // calculate value for +rd and +rw
   instrc->rd_offset = instrc->opd[0].reg & VALUE_MASK;
+  // a negative immediate for a 32-bit register is its 32-bit two's complement
+  if (!instrc->mem_disp && (instrc->opd[0].reg & BIT_MASK) == BIT_32 &&
+      IN_RANGE(instrc->cons, NEG32BIT + NEG32BIT_CHECK, NEG64BIT))
+    instrc->cons &= MAX_UNSIGNED_32BIT;
   // only condition for mov with M operand encoding implementation
   // check if immediate operand is a negative 32 bit value
   if (IN_RANGE(instrc->cons, NEG32BIT + 1, NEG64BIT) &&
